@@ -2,7 +2,7 @@
    the region is n copies of one padded tag between the header and the end tag.  The list-based model cannot run on
    such regions in reasonable time; `run_bigwalk` is the CLOSED FORM of what the model yields on them - proved for every
    n and every tag in Props/C03 (C03_big_walk, C03_big_run) - and is what the oracle evaluates for the domain bigwalk. *)
-Require Import Bytes Outcome Render Common TagType Mbi.
+Require Import Bytes Outcome Render Layout Common TagType Mbi Header HeaderTags.
 From Coq Require Import String List.
 Import ListNotations.
 Open Scope N_scope.
@@ -30,3 +30,49 @@ Definition run_bigwalk (n : N) (tag : list byte) : list string :=
     line "tags_nth" (sN (n + 1) ++ " VAL none");
     line "modules_count" ("VAL " ++ sN (if (typ =? 3)%N then n else 0%N));
     line "debug" "boot VAL " ].
+
+(* ---- the same for the header crate: n copies of one padded header tag between the 16-byte basic header (I386, valid
+   checksum) and the end tag; the typed getters walk all of them ---------------------------------------------------- *)
+Open Scope N_scope.
+Definition hbig_total (n : nat) (tag : list byte) : N := 16 + N.of_nat n * len tag + 8.
+Definition hbig_pre (n : nat) (tag : list byte) : list byte :=
+  enc32 HDR_MAGIC ++ enc32 0 ++ enc32 (hbig_total n tag) ++ enc32 (calc_checksum HDR_MAGIC 0 (hbig_total n tag)).
+Definition hbig_post : list byte := enc16 0 ++ enc16 0 ++ enc32 8.
+Definition hbig_region (n : nat) (tag : list byte) : list byte := hbig_pre n tag ++ concat (repeat tag n) ++ hbig_post.
+
+(* what a typed getter of kind k yields: the first tag (at offset 16) when its type is k's, cast to k *)
+Definition hbig_get (k : hkind2) (n : N) (typ s : N) : res (option tref) :=
+  if (hkind_typ k =? typ) && (1 <=? n) then
+    match k with
+    | HkInfoReq => if negb ((s - 8) mod 4 =? 0) then Panic else Val (Some {| t_off := 16; t_meta := Some ((s - 8) / 4) |})
+    | _ => if round8 s =? sd_size_of (hkind_struct k) then Val (Some {| t_off := 16; t_meta := None |}) else Panic
+    end
+  else Val None.
+
+Open Scope string_scope.
+Definition hbig_getters : list (hkind2 * string) :=
+  [(HkInfoReq, "information_request"); (HkAddress, "address"); (HkEntryAddress, "entry_address");
+   (HkEntryEfi32, "entry_address_efi32"); (HkEntryEfi64, "entry_address_efi64"); (HkConsole, "console_flags");
+   (HkFramebuffer, "framebuffer"); (HkModuleAlign, "module_align"); (HkEfiBs, "efi_boot_services"); (HkRelocatable, "relocatable")].
+
+(* hbigwalk <n> <tag>: tag = one complete header tag padded to a multiple of 8, type 1..10, flags 0..1 *)
+Definition run_hbigwalk (n : N) (tag : list byte) : list string :=
+  let L := len tag in
+  let s := le (slice tag 4 4) in
+  let typ := le (slice tag 0 2) in
+  let nn := N.to_nat n in
+  let T := hbig_total nn tag in
+  if negb ((8 <=? s)%N && (round8 s =? L)%N && (T <? pow2_32)%N && (1 <=? typ)%N && (typ <=? 10)%N && (le (slice tag 2 2) <=? 1)%N)
+  then ["BADARGS"] else
+  ([ line "load" ("VAL length=" ++ sN T);
+     line "tags_count" ("VAL " ++ sN (n + 1));
+     line "tags_last" ("VAL " ++ sView (16 + n * L) 8);
+     line "tags_nth" (sN (n - 1) ++ " VAL " ++ (if (n =? 0)%N then sView 16 8 else sView (16 + (n - 1) * L) L));
+     line "tags_nth" (sN n ++ " VAL " ++ sView (16 + n * L) 8);
+     line "tags_nth" (sN (n + 1) ++ " VAL none") ]
+   ++ map (fun kn => line "get" (snd kn ++ " " ++
+                       match hbig_get (fst kn) n typ s with
+                       | Val (Some t) => "some " ++ sView (t_off t) (htref_size_of_val (fst kn) t)
+                       | Val None => "none"
+                       | x => sRes (fun _ => "") x
+                       end)) hbig_getters)%list.
